@@ -698,13 +698,32 @@ func runLive(c Case, opt Options, live *Live) *Trace {
 			if tc, ok := s.c.NetConn().(*net.TCPConn); ok {
 				tc.CloseWrite()
 			}
+			// the proxy can still answer on the half-closed socket: keep the first packet (an error text is
+			// evidence for the classifiers), discard the rest
+			st.OK = false
+			if p, err := s.c.ReadPacket(); err == nil && len(p) > 0 {
+				if p[0] == 0xff {
+					e := &rawclient.Error{}
+					if len(p) >= 3 {
+						e.Code = uint16(p[1]) | uint16(p[2])<<8
+					}
+					pos := 3
+					if len(p) >= 9 && p[3] == '#' {
+						e.State = string(p[4:9])
+						pos = 9
+					}
+					e.Message = string(p[pos:])
+					st.Err = e
+				} else {
+					st.OK = true
+				}
+			}
 			st.ProxyClosed = waitEOF(s.c, 3*time.Second)
 			if !st.ProxyClosed {
 				tr.Unobserved++
 			}
 			s.c.Close()
 			s.alive = false
-			st.OK = true
 		case KDropHard:
 			if tc, ok := s.c.NetConn().(*net.TCPConn); ok {
 				tc.SetLinger(0)
